@@ -301,6 +301,8 @@ func runLaw(o *hlib.Out, ev *evaluator, name string, xs []any) {
 			got = fmt.Sprintf("err:%v", r["__err"])
 		case panicMark:
 			got = "panic"
+		case timeoutMark:
+			got = "timeout"
 		default:
 			got = fmt.Sprintf("?%T", r)
 		}
